@@ -51,18 +51,21 @@ def _exec_one(args: Tuple[str, Dict[str, Any]]) -> Dict[str, Any]:
 
 
 def _exec_batch(args: Tuple[str, str, str, List[int]]) -> List[Dict[str, Any]]:
+    """A batch child of a light engine.  Every plan still gets a process of its own (forked
+    from this child, one at a time): library-level caches or registries mutated by one plan
+    must not leak into the next one, or a failure would depend on the batch composition and
+    would not replay."""
     engine_name, tier, phase, seeds = args
-    engine = importlib.import_module(engine_name)
-    out = []
-    for s in seeds:
-        plan = engine.generate(s, tier, phase)
-        r = engine.execute(plan)
-        r["seed"] = s
-        if r["violation"]:
-            r["plan"] = plan
-        else:
-            r["sample"] = plan if len(out) < 1 else None
-        out.append(r)
+    out: List[Dict[str, Any]] = []
+    items = [(engine_name, tier, phase, s) for s in seeds]
+    for _, item, status, value in core.fork_map(_gen_exec, items, 1, 600.0, None, False):
+        if status != "ok":
+            raise RuntimeError(f"plan seed={item[3]} {status}: {value}")
+        if not value.get("violation"):
+            value["plan"] = None
+            if out:
+                value["sample"] = None
+        out.append(value)
     return out
 
 
@@ -291,7 +294,7 @@ def run_check(engine_name: str, argv: Optional[List[str]] = None) -> int:
             items = [(engine_name, args.tier, ph["name"], seeds[i:i + b])
                      for i in range(0, len(seeds), b)]
             for _, item, status, value in core.fork_map(
-                _exec_batch, items, core.ncpu(), ph["timeout"], stop
+                _exec_batch, items, core.ncpu(), ph["timeout"], stop, False
             ):
                 if status == "ok":
                     for r in value:
